@@ -173,7 +173,7 @@ def deep_recursion(c, asan):
     inp = os.path.join(c.out, "deepstack.txt")
     with open(inp, "w") as f:
         for text in ('<if case="1">' * 40000 + "x" + "</if>" * 40000, '<loop set="v" value="w">' * 40000 + "x" + "</loop>" * 40000,
-                     "{math:" + "(" * 12000 + "1" + ")" * 12000 + "}"):       # (the expression parser recurses once per parenthesis)
+                     "{math:" + "(" * 40000 + "1" + ")" * 40000 + "}"):       # (the expression parser recurses once per parenthesis)
             f.write(",".join(str(ord(ch)) for ch in text) + "\t" + ",".join(str(ord(ch)) for ch in '{"v":[[1]]}') + "\t" + '{"fam":"deepstack","ast":null,"doc":{"t":"Z"}}' + "\n")
     out = os.path.join(c.out, "deepstack.ndjson")
     start = 0
